@@ -329,7 +329,7 @@ def exponent_base_zero(e, env):
 NOT01 = [v for v in PV if v not in (0.0, 1.0)]
 # magnitudes and numeric types a user may pass to Parameter.set / VectorParameter.set
 PV_EXTREME = [1e-12, -1e-9, 1e8, -1e8, 2, -3, np.float32(0.5), np.int64(-1), np.array(1.5), np.float64(-0.0), True,
-              np.int8(-2), np.float16(0.25)]
+              np.int8(-2), np.float16(0.25), np.uint8(3), np.uint64(5), np.bool_(True)]
 
 
 def fval(v):
@@ -699,8 +699,8 @@ def run_problem_histories(rng, rep, n_hist, n_ops):
 def dtype_probe(rep):
     """values of every NumPy scalar / array dtype passed to Parameter.set and VectorParameter.set, on three tiny models
     (negation, minus an integer constant, difference of two parameters): evaluate / compiled value / Jacobian vs the model
-    with Constant(float(value)).  Unsigned dtypes wrap around in the real code (finding reported to the coordinator:
-    `Parameter.set` keeps the dtype of NumPy values); those mismatches are classified `parameter_unsigned_dtype`."""
+    with Constant(float(value)).  (Unsigned / bool values used to wrap around: finding F33, repaired — every mismatch is
+    a failure.)"""
     from optyx import Variable, Parameter, VectorParameter
     from optyx.core.expressions import Constant
     from optyx.core.compiler import compile_expression
@@ -740,17 +740,10 @@ def dtype_probe(rep):
                 n += 1
                 rep.evaluations += 1
                 if got != want:
-                    f = {"what": "value of a model whose Parameter was set to a NumPy value differs from Constant(float(value))",
-                         "dtype": np.dtype(dt).name, "via_vector_parameter": via_vector, "model": tag, "got": got,
-                         "fresh_constant_model": want,
-                         "kind": "parameter_unsigned_dtype" if np.dtype(dt).kind in "ub" else "parameter_value_dtype"}
-                    if core.match_known("C12", f) is not None or f["kind"] != "parameter_unsigned_dtype":
-                        rep.oracle_failures.append(f)
-                    else:
-                        key = "finding-candidate:parameter_unsigned_dtype"
-                        rep.histogram[key] = rep.histogram.get(key, 0) + 1
-                        if not any("parameter_unsigned_dtype" in t for t in rep.notes):
-                            rep.notes.append("parameter_unsigned_dtype (reported, awaiting fix / known-finding decision): " + str(f)[:400])
+                    rep.oracle_failures.append({
+                        "what": "value of a model whose Parameter was set to a NumPy value differs from Constant(float(value))",
+                        "dtype": np.dtype(dt).name, "via_vector_parameter": via_vector, "model": tag, "got": got,
+                        "fresh_constant_model": want, "dtype_probe": True})
     rep.histogram["dtype_probe_cases"] = n
 
 
@@ -896,6 +889,10 @@ def search(ctx, rep):
 def replay(payload) -> bool:
     f = payload["failure"]
     rep = core.Report()
+    if f.get("dtype_probe"):
+        dtype_probe(rep)
+        print(rep.oracle_failures[:3])
+        return not rep.oracle_failures
     if "problem_history" in f:
         tag = f["recipe"]
         mk = dict(problem_recipes())[tag]
